@@ -1,0 +1,143 @@
+//go:build verif
+
+// Contracts for package augment, checked by /verif/gvc (comment-only file).
+//
+// The finder is a token-stream scanner. tokLeft(f) = scanLeft + (f.tok == EOF ? 0 : 1) is the
+// number of tokens not yet consumed; every step consumes at least one token unless the stream is
+// at EOF, where nothing changes any more. Every loop and every recursive call must therefore make
+// progress or stop at EOF (C08: no patch text makes gopatch hang).
+
+package augment
+
+//@ func (f *finder) onError(pos, msg)
+//@   assigns f.errors, elems(f.errors)
+//@   ensures f.errors.arr == old(f.errors.arr) || fresh(f.errors.arr)
+
+//@ func (f *finder) append(aug)
+//@   assigns f.augs, elems(f.augs)
+//@   ensures f.augs.arr == old(f.augs.arr) || fresh(f.augs.arr)
+//@   ensures len(f.augs) == old(len(f.augs)) + 1
+
+//@ func (f *finder) line
+//@   inline
+
+//@ func (f *finder) next
+//@   requires f.scanner != nil && f.file != nil
+//@   assigns f.pos, f.tok, f.offset, f.errors, elems(f.errors), scanLeft
+//@   ensures scanLeft >= 0
+//@   ensures [C08] old(scanLeft) > 0 ==> scanLeft == old(scanLeft) - 1 && f.tok != const("go/token.EOF")
+//@   ensures [C08] old(scanLeft) <= 0 ==> scanLeft == 0 && f.tok == const("go/token.EOF")
+//@   ensures f.errors.arr == old(f.errors.arr) || fresh(f.errors.arr)
+
+//@ func (f *finder) ident
+//@   requires finderOK(f) && f.tok != const("go/token.EOF")
+//@   assigns f.pos, f.tok, f.offset, f.errors, elems(f.errors), scanLeft
+//@   ensures finderOK(f)
+//@   ensures [C08] consumes-a-token: tokLeft(f) < old(tokLeft(f))
+//@   ensures f.errors.arr == old(f.errors.arr) || fresh(f.errors.arr)
+
+//@ func (f *finder) ellipsis
+//@   requires finderOK(f) && f.tok != const("go/token.EOF")
+//@   assigns f.pos, f.tok, f.offset, f.errors, elems(f.errors), f.augs, elems(f.augs), scanLeft
+//@   ensures finderOK(f)
+//@   ensures [C08] consumes-a-token: tokLeft(f) < old(tokLeft(f))
+//@   ensures f.errors.arr == old(f.errors.arr) || fresh(f.errors.arr)
+//@   ensures f.augs.arr == old(f.augs.arr) || fresh(f.augs.arr)
+
+//@ func (f *finder) process
+//@   requires finderOK(f) && f.tok != const("go/token.EOF")
+//@   assigns f.pos, f.tok, f.offset, f.errors, elems(f.errors), f.augs, elems(f.augs), scanLeft
+//@   ensures finderOK(f)
+//@   ensures [C08] consumes-a-token: tokLeft(f) < old(tokLeft(f))
+//@   ensures f.errors.arr == old(f.errors.arr) || fresh(f.errors.arr)
+//@   ensures f.augs.arr == old(f.augs.arr) || fresh(f.augs.arr)
+//@   decreases 2 * tokLeft(f) + 1
+
+//@ func (f *finder) function
+//@   requires finderOK(f) && f.tok != const("go/token.EOF")
+//@   assigns f.pos, f.tok, f.offset, f.errors, elems(f.errors), f.augs, elems(f.augs), scanLeft
+//@   ensures finderOK(f)
+//@   ensures [C08] consumes-a-token: tokLeft(f) < old(tokLeft(f))
+//@   ensures f.errors.arr == old(f.errors.arr) || fresh(f.errors.arr)
+//@   ensures f.augs.arr == old(f.augs.arr) || fresh(f.augs.arr)
+//@   decreases 2 * tokLeft(f)
+
+//@ func (f *finder) params
+//@   inline
+
+//@ func (f *finder) results
+//@   inline
+
+// A parameter/result list: scanned up to its closing parenthesis or the end of the input.
+//@ func (f *finder) fieldList
+//@   requires finderOK(f)
+//@   assigns f.pos, f.tok, f.offset, f.errors, elems(f.errors), f.augs, elems(f.augs), scanLeft
+//@   ensures finderOK(f)
+//@   ensures [C08] never-goes-back: tokLeft(f) <= old(tokLeft(f))
+//@   ensures [C08] consumes-a-token: old(f.tok) != const("go/token.EOF") ==> tokLeft(f) < old(tokLeft(f))
+//@   ensures f.errors.arr == old(f.errors.arr) || fresh(f.errors.arr)
+//@   ensures f.augs.arr == old(f.augs.arr) || fresh(f.augs.arr)
+//@   decreases 2 * tokLeft(f) + 1
+//@   loop 0
+//@     invariant finderOK(f)
+//@     invariant tokLeft(f) <= old(tokLeft(f)) && (old(f.tok) != const("go/token.EOF") ==> tokLeft(f) < old(tokLeft(f)))
+//@     invariant f.errors.arr == old(f.errors.arr) || fresh(f.errors.arr)
+//@     invariant f.augs.arr == old(f.augs.arr) || fresh(f.augs.arr)
+//@     invariant ellipses.arr == 0 || fresh(ellipses.arr)
+//@     decreases tokLeft(f)
+//@   loop 1
+//@     invariant finderOK(f) && tokLeft(f) <= old(tokLeft(f)) && (old(f.tok) != const("go/token.EOF") ==> tokLeft(f) < old(tokLeft(f)))
+//@     invariant f.errors.arr == old(f.errors.arr) || fresh(f.errors.arr)
+//@     invariant f.augs.arr == old(f.augs.arr) || fresh(f.augs.arr)
+
+// A top-level func declaration: optional receiver list, name, parameters, results.
+//@ func (f *finder) funcDecl
+//@   requires finderOK(f)
+//@   assigns f.pos, f.tok, f.offset, f.errors, elems(f.errors), f.augs, elems(f.augs), scanLeft
+//@   ensures finderOK(f)
+//@   ensures [C08] never-goes-back: tokLeft(f) <= old(tokLeft(f))
+//@   ensures f.errors.arr == old(f.errors.arr) || fresh(f.errors.arr)
+//@   ensures f.augs.arr == old(f.augs.arr) || fresh(f.augs.arr)
+//@   loop 0
+//@     invariant finderOK(f) && tokLeft(f) <= old(tokLeft(f))
+//@     invariant f.errors.arr == old(f.errors.arr) || fresh(f.errors.arr)
+//@     invariant f.augs.arr == old(f.augs.arr) || fresh(f.augs.arr)
+//@     decreases tokLeft(f)
+
+//@ func (f *finder) pkg
+//@   requires finderOK(f)
+//@   assigns f.pos, f.tok, f.offset, f.errors, elems(f.errors), f.augs, elems(f.augs), scanLeft
+//@   ensures finderOK(f)
+//@   ensures f.errors.arr == old(f.errors.arr) || fresh(f.errors.arr)
+//@   ensures f.augs.arr == old(f.augs.arr) || fresh(f.augs.arr)
+
+//@ func (f *finder) imports
+//@   requires finderOK(f)
+//@   assigns f.pos, f.tok, f.offset, f.errors, elems(f.errors), scanLeft
+//@   ensures finderOK(f)
+//@   ensures f.errors.arr == old(f.errors.arr) || fresh(f.errors.arr)
+//@   loop 0
+//@     invariant finderOK(f)
+//@     invariant f.errors.arr == old(f.errors.arr) || fresh(f.errors.arr)
+//@     decreases tokLeft(f)
+//@   loop 1
+//@     invariant finderOK(f) && tokLeft(f) < variant0
+//@     invariant f.errors.arr == old(f.errors.arr) || fresh(f.errors.arr)
+//@     decreases tokLeft(f)
+
+//@ func (f *finder) topLevelDecl
+//@   requires finderOK(f)
+//@   assigns f.pos, f.tok, f.offset, f.errors, elems(f.errors), f.augs, elems(f.augs), scanLeft
+//@   ensures finderOK(f)
+//@   ensures f.errors.arr == old(f.errors.arr) || fresh(f.errors.arr)
+//@   ensures f.augs.arr == old(f.augs.arr) || fresh(f.augs.arr)
+
+// The whole scan terminates: the main loop runs until EOF and every step consumes a token.
+//@ func (f *finder) find() (augs)
+//@   requires finderOK(f)
+//@   assigns f.pos, f.tok, f.offset, f.errors, elems(f.errors), f.augs, elems(f.augs), scanLeft
+//@   loop 0
+//@     invariant finderOK(f)
+//@     invariant f.errors.arr == old(f.errors.arr) || fresh(f.errors.arr)
+//@     invariant f.augs.arr == old(f.augs.arr) || fresh(f.augs.arr)
+//@     decreases tokLeft(f)
